@@ -701,12 +701,61 @@ func (x *fx) frameFormula(name, newV, oldV string, regs []region, top string) st
 		rows = append(rows, fmt.Sprintf("(forall ((i %s)) (! (=> %s (= (select (select %s %s) i) (select (select %s %s) i))) :pattern ((select (select %s %s) i))))",
 			idx, x.and(outs...), newV, r.ref, oldV, r.ref, newV, r.ref))
 	}
+	// every region names the same cell and narrows it to a nested component: the
+	// components of that cell outside all of them are unchanged too
+	narrow := true
+	for _, r := range mine {
+		if r.sub == nil || r.ref != mine[0].ref || r.lo != mine[0].lo {
+			narrow = false
+		}
+	}
+	if narrow {
+		var paths [][]pathEl
+		for _, r := range mine {
+			paths = append(paths, r.sub)
+		}
+		nc := fmt.Sprintf("(select (select %s %s) %s)", newV, mine[0].ref, mine[0].lo)
+		oc := fmt.Sprintf("(select (select %s %s) %s)", oldV, mine[0].ref, mine[0].lo)
+		rows = append(rows, x.keepOutside(nc, oc, mine[0].subT, paths)...)
+	}
 	return x.and(append([]string{f1}, rows...)...)
+}
+
+// keepOutside: equalities between the components of struct values nv and ov (of
+// type t) that lie outside every path in paths.
+func (x *fx) keepOutside(nv, ov string, t types.Type, paths [][]pathEl) []string {
+	for _, p := range paths {
+		if len(p) == 0 {
+			return nil // the whole value may change
+		}
+	}
+	st, ok := t.Underlying().(*types.Struct)
+	if !ok {
+		return nil
+	}
+	s := x.sortOf(t)
+	var out []string
+	for i := 0; i < st.NumFields(); i++ {
+		var tails [][]pathEl
+		for _, p := range paths {
+			if !p[0].IsIdx && p[0].Field == i {
+				tails = append(tails, p[1:])
+			}
+		}
+		sel := x.selName(s, st.Field(i).Name(), i)
+		n, o := fmt.Sprintf("(%s %s)", sel, nv), fmt.Sprintf("(%s %s)", sel, ov)
+		if len(tails) == 0 {
+			out = append(out, "(= "+n+" "+o+")")
+			continue
+		}
+		out = append(out, x.keepOutside(n, o, st.Field(i).Type(), tails)...)
+	}
+	return out
 }
 
 // checkFrameStore: a store must hit a modifies region or an object allocated
 // by this activation.
-func (x *fx) checkFrameStore(t types.Type, ref, off string, pe *pathEl) {
+func (x *fx) checkFrameStore(t types.Type, ref, off string, pe *pathEl, sub ...pathEl) {
 	if x.c.ModAll || x.pass == 1 {
 		return
 	}
@@ -727,7 +776,7 @@ func (x *fx) checkFrameStore(t types.Type, ref, off string, pe *pathEl) {
 		var in []string
 		in = append(in, "(>= "+ref+" "+x.top0+")")
 		for _, r := range x.regions {
-			if r.mem == n {
+			if r.mem == n && (r.sub == nil || (pe != nil && subPrefix(r.sub, sub))) {
 				in = append(in, x.and("(= "+ref+" "+r.ref+")", x.ile(r.lo, off), x.ilt(off, r.hi)))
 			}
 		}
